@@ -62,15 +62,27 @@ Definition row := builtin_steps ["gorm:row"].
 Definition runs (q : clause) (c : bool) (h : list step) : bool := judge q c r0 0%N None O h (run h).
 Definition in_domain (h : list step) : bool := r_dom (book r0 0%N h).
 
-(* After(u2).Register(u1); After(u1).Register(u2): the recursion of sortCallback never ends *)
+(* After(u2).Register(u1); After(u1).Register(u2): the recursion of sortCallback is cut by the depth
+   guard (before /repo 591f9f1 the process died of a stack overflow): an error is returned *)
 Definition w_cycle := row ++ [reg "u1" "" "u2"; reg "u2" "" "u1"].
-Lemma cycle_crashes : in_domain w_cycle = true /\ last (run w_cycle) (OOk []) = OCrash
-                      /\ runs cl_true false w_cycle = false.
+Lemma cycle_detected : in_domain w_cycle = true
+  /\ last (run w_cycle) OCrash = OErr "conflicting callback u1 with cyclic before/after" []
+  /\ runs spec_ok false w_cycle = true.
 Proof. vm_compute. auto. Qed.
 
 (* After(x).Register(x) *)
 Definition w_self := row ++ [reg "u1" "" "u1"].
-Lemma self_crashes : in_domain w_self = true /\ last (run w_self) (OOk []) = OCrash.
+Lemma self_detected : in_domain w_self = true
+  /\ last (run w_self) OCrash = OErr "conflicting callback u1 with cyclic before/after" []
+  /\ runs spec_ok false w_self = true.
+Proof. vm_compute. auto. Qed.
+
+(* ... but Before(gorm:row).After(u1).Register(u1) is accepted: the Before half places u1 first, the After
+   half then finds u1 "already sorted" *)
+Definition w_self_silent := row ++ [reg "u1" "gorm:row" "u1"].
+Lemma self_silent : in_domain w_self_silent = true
+  /\ last (run w_self_silent) OCrash = OOk [("u1", 1%N); ("gorm:row", 0%N)]
+  /\ runs cl_sides true w_self_silent = false.
 Proof. vm_compute. auto. Qed.
 
 (* Before("*").Register(u1); Replace(u1): the old handler (step 1) runs, not the new one (step 2) *)
@@ -160,30 +172,36 @@ Proof.
   rewrite K. now rewrite orb_assoc.
 Qed.
 
+Lemma run_from_length : forall h p i, length (run_from p i h) = length h.
+Proof.
+  induction h as [|s h IH]; intros p i; cbn [run_from]; [reflexivity|].
+  unfold run_step. destruct (sort_callbacks _); cbn; now rewrite IH.
+Qed.
+
 Lemma complete_run_from : forall h p i, complete O h (run_from p i h) = true.
 Proof.
-  intros h p i. unfold complete. cbn [Nat.add].
-  assert (H : forall h p i, length (run_from p i h) = length h
-               \/ (length (run_from p i h) < length h /\ last (run_from p i h) (OOk []) = OCrash)
-               \/ (length (run_from p i h) = length h)).
-  { clear. induction h as [|s h IH]; intros p i; cbn [run_from]; [left; reflexivity|].
-    unfold run_step. destruct (sort_callbacks _) as [cs fns|cs n t|].
-    - destruct (IH (mk_proc cs fns) (N.succ i)) as [E|[[L C]|E]].
-      + left. cbn. now rewrite E.
-      + right. left. split; [cbn; lia|]. cbn [last]. destruct (run_from _ _ h); [cbn in C; discriminate|exact C].
-      + left. cbn. now rewrite E.
-    - destruct (IH (mk_proc cs []) (N.succ i)) as [E|[[L C]|E]].
-      + left. cbn. now rewrite E.
-      + right. left. split; [cbn; lia|]. cbn [last]. destruct (run_from _ _ h); [cbn in C; discriminate|exact C].
-      + left. cbn. now rewrite E.
-    - destruct h as [|s' h'].
-      + left. reflexivity.
-      + right. left. split; [cbn; lia|reflexivity]. }
-  destruct (H h p i) as [E|[[L C]|E]].
-  - rewrite E, Nat.eqb_refl. reflexivity.
-  - rewrite C. apply Nat.ltb_lt in L. rewrite L. now rewrite orb_true_r.
-  - rewrite E, Nat.eqb_refl. reflexivity.
+  intros h p i. unfold complete. cbn [Nat.add]. now rewrite run_from_length, Nat.eqb_refl.
 Qed.
+
+(* the model never answers with a dead process (depth guard) *)
+Lemma run_from_no_crash : forall h p i, ~ In OCrash (run_from p i h).
+Proof.
+  induction h as [|s h IH]; intros p i; cbn [run_from]; [intros []|].
+  unfold run_step. destruct (sort_callbacks _); cbn; intros [H|H]; try discriminate; eapply IH; eauto.
+Qed.
+
+Lemma judge_no_crash : forall h r i prev os,
+  ~ In OCrash os -> judge cl_true false r i prev O h os = true.
+Proof.
+  induction h as [|s h IH]; intros r i prev os H; cbn [judge]; [reflexivity|].
+  destruct os as [|o os]; [reflexivity|]. apply andb_true_iff. split.
+  - unfold judge_step, cl_true. destruct (negb (r_dom (ref_apply r i s))); cbn; [reflexivity|].
+    destruct o; try reflexivity. exfalso. apply H. left. reflexivity.
+  - apply IH. intro Hin. apply H. right. exact Hin.
+Qed.
+
+Theorem history_never_crashes : forall h, judge cl_true false r0 0%N None O h (run h) = true.
+Proof. intro h. apply judge_no_crash, run_from_no_crash. Qed.
 
 Lemma ok_or_known_fold : forall h,
   (let e := fold_left est_step h est0 in x_good e || x_known e) = ok_or_known h.
